@@ -20,6 +20,7 @@ def run(tier, seed):
              "uninitialised cells or locals, stores/reallocs of input blocks or of the frozen structure, attribute "
              "stores on inputs, int32 overflow, typing of conditions/indexes, step budget; return value 0; every "
              "returned array live, long enough and initialised over the extent the structure describes",
+        native_stride=12 if tier == "quick" else 4,
         assumptions=[
             "element counts fit int32 (inputs are tiny), so overflow can only come from the kernel's own arithmetic",
             "the abstract machine implements the IR semantics of both printers; C06 additionally runs the emitted C "
